@@ -4,8 +4,11 @@
     representable <frag> <tree>    `true` / `false`: `RepresentableFragment` (<frag> = 1) or
                                    `Representable` (<frag> = 0) under the current vocabulary
     sertokens <tree>               `ok <str>` = `renderTokens (serTokensTop tree)`, or the error
+    standalone <path> <tree>       `ok <tree>` = `standalone tree path` (Model/InnerStartSpec.lean: the
+                                   document `to_string(element at path)` parses back to), or `none`
 -/
 import XotModel.Model.SerTokens
+import XotModel.Model.InnerStartSpec
 import XotModel.Driver.Output
 
 namespace XotModel.Driver
@@ -24,5 +27,15 @@ def handleSerTokens (st : DState) (toks : List String) : Option String := do
   match serTokensTop st.env t with
   | .ok ts => some ("ok " ++ encStr (renderTokens ts))
   | .error e => some (showError st.env e)
+
+def handleStandalone : List String → Option String
+  | path :: toks => do
+      let q ← parsePath path
+      let (t, rest) ← parseTree toks
+      if !rest.isEmpty then none
+      match standalone t q with
+      | some d => some ("ok " ++ showTree d)
+      | none => some "none"
+  | _ => none
 
 end XotModel.Driver
